@@ -20,6 +20,22 @@ CHECKS = {
             'outside the alphabets on formats above the small scope are not visited.',
             'Trusted: the integer reference quantizer (cross-checked by the oracle-free relations of C05), IEEE-754 exactness of '
             'power-of-two scaling, CPython/NumPy themselves.', 'DESIGN.md section 4 C01'),
+    'C03': (TECH_E1,
+            'No execution in the enumerated space stores, under wrap, anything but the unique in-range integer congruent to the rounded '
+            'input mod 2^n_word: all formats n_word<=6 (thorough 8) x 5 roundings x every quarter-LSB input over 5x the range; the 1..52-bit '
+            'grid x boundary/out-of-range alphabet; oracle-free shift invariance (v vs v+m*2^(n_word-n_frac)); wide words 64..256 with Python '
+            'ints of up to 4x the word length by three routes; register behaviour of + - * with sizing same (all code pairs n_word<=4/5, '
+            'boundary pairs at 8..65 bits).',
+            'Trusted: reference wrap on Python ints. Shift invariance for trunc/fix is only demanded where the shift does not move a '
+            'non-representable input across zero (rounding toward zero does not commute with it otherwise). One known finding (D12).',
+            'DESIGN.md section 4 C03'),
+    'C05': (TECH_E1,
+            'No execution in the enumerated space violates the rounding contracts, judged by order relations on exact integers only (no '
+            'reference quantizer): direction, |q-v|<LSB, ties-to-even, representable values unchanged and unflagged in all 10 modes '
+            '(every code of every format n_word<=8), x(x()) and x.set_val(x) no-ops, monotonicity of the sorted sweep under saturate; '
+            'small scope n_word<=7 (thorough 10) exhaustively, boundary alphabet on the 1..52-bit grid; float and integer carriers.',
+            'Trusted: integer comparison code in mc/props/c05.py:relation(); independent of mc/refmodel.quantize, so it also guards C01\'s oracle.',
+            'DESIGN.md section 4 C05'),
 }
 
 NOT_YET = {}
